@@ -427,8 +427,9 @@ class Outcome:
         seen = set(order)
         order += [i for i in range(len(self.violations)) if i not in seen]
         self.violations = [self.violations[i] for i in order]
+        is_replay = getattr(self, "is_replay", False)
         for i, (why, case) in enumerate(self.violations[:20]):
-            path = os.path.join(REPLAYS, "%s_%s_%d.json" % (self.pid, self.tier, i))
+            path = os.path.join(REPLAYS, "%s_%s_%d.json" % (self.pid, "replayed" if is_replay else self.tier, i))
             json.dump({"property": self.pid, "why": why, "case": case}, open(path, "w"), indent=1, ensure_ascii=False)
             paths.append(path)
             log("VIOLATION property=%s replay=%s" % (self.pid, path))
@@ -444,7 +445,8 @@ class Outcome:
             cov["samples"] = ["(no sample recorded)"]
         ev = {"property_id": self.pid, "tier": self.tier, "seed": self.seed, "level": "model_checking", "coverage": cov,
               "assumptions": self.assumptions, "wall_s": round(time.time() - self.t0, 1), "violations": len(self.violations)}
-        json.dump(ev, open(os.path.join(EVIDENCE, self.pid + ".json"), "w"), indent=1, ensure_ascii=False)
+        if not is_replay:
+            json.dump(ev, open(os.path.join(EVIDENCE, self.pid + ".json"), "w"), indent=1, ensure_ascii=False)
         log("[%s %s] evaluations=%d nontrivial=%d states=%d traces_validated=%d drift=%d known=%s violations=%d wall=%.0fs" % (
             self.pid, self.tier, cov["evaluations"], cov["distinct_nontrivial"], cov["states"], cov["traces_validated_against_impl"],
             cov["model_drift"], cov["known_findings_met"], len(self.violations), time.time() - self.t0))
